@@ -95,7 +95,7 @@ fn main() {
         ("gen", "C03") => c03::generate(seed, &tier, &mut out),
         ("gen", "C14") => c14::generate(seed, &tier, &mut out),
         ("gen", "C08") => c08::generate(seed, &tier, &mut out),
-        ("gen", "C11") => c11::generate(seed, &tier, &mut out),
+        ("gen", "C11") => { c11::generate(seed, &tier, &mut out); c04::generate_exits("C11", seed, &tier, &mut out) }
         ("gen", "C17") => c17::generate(seed, &tier, &mut out),
         ("gen", "C19") => c19::generate(seed, &tier, &mut out),
         ("gen", "C15") => c15::generate(seed, &tier, &mut out),
